@@ -564,7 +564,7 @@ fn verif_c08_prime() {
     );
 }
 
-// GF(2)[x] remainder / quotient on bit patterns (harness-side search for factors of POLYNOMIAL).
+// GF(2)[x] arithmetic on bit patterns (harness-side search for factors of POLYNOMIAL, degree <= 63).
 fn poly_divmod(mut a: u128, m: u128) -> (u128, u128) {
     let dm = 127 - m.leading_zeros();
     let mut q = 0u128;
@@ -576,19 +576,68 @@ fn poly_divmod(mut a: u128, m: u128) -> (u128, u128) {
     (q, a)
 }
 
+fn poly_mulmod(a: u128, b: u128, m: u128) -> u128 {
+    let mut r = 0u128;
+    let mut a = a;
+    let mut b = b;
+    while b != 0 {
+        if b & 1 == 1 {
+            r ^= a;
+        }
+        a <<= 1;
+        b >>= 1;
+    }
+    poly_divmod(r, m).1
+}
+
+fn poly_gcd(mut a: u128, mut b: u128) -> u128 {
+    while b != 0 {
+        let r = poly_divmod(a, b).1;
+        a = b;
+        b = r;
+    }
+    a
+}
+
+/// A non-trivial factor of `p` over GF(2), if `p` is reducible: gcd(p, x^(2^i) - x) collects all
+/// irreducible factors of degree dividing i.
+fn poly_factor(p: u128) -> Option<u128> {
+    let k = 127 - p.leading_zeros();
+    if k <= 1 {
+        return None;
+    }
+    let mut x2i: u128 = 2;
+    for i in 1..=(k / 2) {
+        x2i = poly_mulmod(x2i, x2i, p);
+        let g = poly_gcd(p, x2i ^ 2);
+        if g != 1 {
+            if g != p {
+                return Some(g);
+            }
+            // all irreducible factors have degree dividing i (small): trial division
+            for f in 2u128..(1u128 << (i + 1)) {
+                if f != p && poly_divmod(p, f).1 == 0 {
+                    return Some(f);
+                }
+            }
+            return None;
+        }
+    }
+    None
+}
+
 fn gen_gf(rng: &mut Rng, thorough: bool, out: &mut Vec<String>, name: &str, bits: u32, poly: u128, bytes: usize) {
     let f = name;
     let n: u128 = 1u128 << bits;
     let mask = n - 1;
-    // negation side of the field certificate: every factor of POLYNOMIAL of degree <= 12 gives the
-    // zero-divisor pair (factor, cofactor), tried first on the real code.
-    if bits >= 2 {
-        for cand in 2u128..(1u128 << 13.min(bits)) {
-            let (q, r) = poly_divmod(poly, cand);
-            if r == 0 && cand != 1 && q != 1 {
-                out.push(format!("c08.gf {f} mul {cand} {q}"));
-                out.push(format!("c08.gf {f} mul {q} {cand}"));
-            }
+    // negation side of the field certificate: a non-trivial factorisation POLYNOMIAL = g * h gives the
+    // zero-divisor pair (g, h), tried first on the real code.
+    if let Some(g) = poly_factor(poly) {
+        let (h, r) = poly_divmod(poly, g);
+        assert!(r == 0, "harness: factor search is broken");
+        if g >> bits == 0 && h >> bits == 0 {
+            out.push(format!("c08.gf {f} mul {g} {h}"));
+            out.push(format!("c08.gf {f} mul {h} {g}"));
         }
     }
     let mut boundary: Vec<u128> = vec![0, 1, 2, 3, mask, mask - 1 & mask, mask >> 1, (mask >> 1) + 1, poly & mask, (poly >> 1) & mask];
